@@ -808,19 +808,25 @@ func foldArgGuards(c *Ctx, r *Report, rule, rel, fn, key string, n int, domain [
 // S-WHOLE: whole operations folded (constant propagation with bounded loop unrolling over a small word store)
 // against the bit-level model
 func checkWholeOps(c *Ctx, r *Report) {
-	r.Rule("S-WHOLE", "BitArray.SetRange (every 0 <= start <= end <= 70, the empty range included), BitArray.Reverse (sizes 1..70), BitMatrix.SetRegion (rectangles straddling one, two and three storage words) and BitMatrix.Rotate180 (widths around the 32/64/96-bit word boundaries, heights 1..4) are folded as whole functions on a pre-filled word store and compared bit by bit with the model", 4)
+	r.Rule("S-WHOLE", "BitArray.SetRange (every 0 <= start <= end <= 70, the empty range included), BitArray.Reverse (sizes 1..70), BitMatrix.SetRegion (rectangles straddling one, two and three storage words, whole rows of a matrix whose width is no multiple of the word size among them: the unused bits of a row's last word stay clear) and BitMatrix.Rotate180 (widths around the 32/64/96-bit word boundaries, heights 1..4) are folded as whole functions on a pre-filled word store and compared bit by bit with the model", 4)
 	pattern := func(i int64) bool { return (i*7+i/3)%5 < 2 }
 	ext := func(m *wordModel, p *packages.Package, width, height, rowSize, size, nwords int64) *rpf {
 		h := m.hooks(p, width, height, rowSize, size, nwords)
 		h.unroll = 4096
 		baseSel, baseCall, baseSt := h.selHook, h.callHook, h.stHook
+		// one list stands for the word store during the whole fold, so that a slice of it held in a local variable
+		// (row := this.bits[a:b]) reads and writes the same words; the model's words are the truth, the list mirrors them
+		store := &Val{K: VList, L: make([]*Val, nwords)}
+		refresh := func() {
+			for i := int64(0); i < nwords; i++ {
+				store.L[i] = &Val{K: VInt, I: int64(m.words[i]), T: types.Typ[types.Uint32]}
+			}
+		}
+		refresh()
 		h.selHook = func(x *rpf, sel *ast.SelectorExpr) (*Val, bool) {
 			if sel.Sel.Name == "bits" {
-				out := &Val{K: VList}
-				for i := int64(0); i < nwords; i++ {
-					out.L = append(out.L, &Val{K: VInt, I: int64(m.words[i]), T: types.Typ[types.Uint32]})
-				}
-				return out, true
+				refresh()
+				return store, true
 			}
 			return baseSel(x, sel)
 		}
@@ -842,9 +848,30 @@ func checkWholeOps(c *Ctx, r *Report) {
 				for i, e := range v.L {
 					m.words[int64(i)] = uint32(e.I)
 				}
+				refresh()
 				return true
 			}
-			return baseSt(x, lhs, v)
+			if baseSt(x, lhs, v) {
+				refresh()
+				return true
+			}
+			// a store through a slice of the word store held in a variable
+			if ix, ok := lhs.(*ast.IndexExpr); ok && nwords > 0 {
+				if base, err := x.tryExpr(ix.X); err == nil && base.K == VList && len(base.L) > 0 {
+					for k := int64(0); k < nwords; k++ {
+						if &store.L[k] == &base.L[0] {
+							i := x.expr(ix.Index)
+							if !i.isInt() || i.I < 0 || i.I >= int64(len(base.L)) || !v.isInt() {
+								rpfFail("word index %v outside the %d-word slice of the store", i, len(base.L))
+							}
+							m.words[k+i.I] = uint32(v.I)
+							refresh()
+							return true
+						}
+					}
+				}
+			}
+			return false
 		}
 		return h
 	}
@@ -924,10 +951,11 @@ func checkWholeOps(c *Ctx, r *Report) {
 			W, H := dim[0], dim[1]
 			rs := (W + 31) / 32
 			for _, left := range []int64{0, 1, 20, 31, 32, 33, 40, 63, 64} {
-				for _, width := range []int64{1, 2, 12, 31, 32, 33, 34, 44, 60, 64, 66, 96} {
+				for _, width := range []int64{1, 2, 12, 31, 32, 33, 34, 44, 60, 64, 66, 96, W - left, W - left - 1} {
+					// (the last two: a region that ends at, and one module before, the right edge - whole rows when left is 0)
 					for _, top := range []int64{0, 1} {
 						for _, height := range []int64{1, 2} {
-							if left+width > W || top+height > H || bad != "" {
+							if width < 1 || left+width > W || top+height > H || bad != "" {
 								continue
 							}
 							m := &wordModel{words: map[int64]uint32{}}
@@ -964,6 +992,7 @@ func checkWholeOps(c *Ctx, r *Report) {
 	} else {
 		r.AnchorLost("S-WHOLE", "gozxing.BitMatrix.SetRegion/whole", "method not found")
 	}
+	r.DecidedWhenUndecided("S-BITOPS", "S-WHOLE", "SetRegion folded whole on rectangles straddling one, two and three words, compared bit by bit", "SetRegion.body")
 	// ---- Rotate180
 	if fd, p := c.funcDeclOf("", "BitMatrix.Rotate180"); fd != nil {
 		key := "gozxing.BitMatrix.Rotate180/whole"
